@@ -20,7 +20,7 @@ LEAN = {"module": "Pygom.Props.C04",
         "required": ["Pygom.C04.path_start", "Pygom.C04.path_times_increasing", "Pygom.C04.adaptiveTau_pos",
                      "Pygom.C04.path_counts", "Pygom.C04.path_increment", "Pygom.C04.path_exit",
                      "Pygom.C04.path_exit_partial"]}
-BUDGET = {"quick": {"models": 60}, "thorough": {"models": 1200, "max_steps": 3000}}
+BUDGET = {"quick": {"models": 120}, "thorough": {"models": 1000, "max_steps": 3000, "steps": [40, 150, 600, 2500]}}
 RULE = ("bounded-rate event models from the shared generator (1-5 states incl. range-style names, 1-5 events of 1-3 T/B/D "
         "transitions, integer magnitudes 1-3, linear/mass-action/saturating/exponential autonomous rates, derived parameters, "
         "every API route; 25% single-state or single-event; 10% of tau runs carry explicit ODE terms), integer initial states, "
@@ -45,11 +45,13 @@ def make_cases(rng, tier, budget):
         for mode in ("exact", "tau_adaptive", "tau_fixed"):
             b = base
             if mode != "exact" and r.random() < 0.1:
-                b2 = SC.gen_sim_case(random.Random(r.getrandbits(64)), max_x0=30, ode_share=1.0)
-                if b2 is not None:
-                    b = b2
+                for _ in range(8):      # a model with explicit ODE terms next to its events
+                    b2 = SC.gen_sim_case(random.Random(r.getrandbits(64)), max_x0=30, ode_share=1.0)
+                    if b2 is not None and b2["has_ode"]:
+                        b = b2
+                        break
             c = dict(b)
-            c["sim"] = SC.sim_settings(r, b, mode)
+            c["sim"] = SC.sim_settings(r, b, mode, steps=budget.get("steps"))
             c["sim"]["horizon_kind"] = r.choice(["float", "float", "list1", "int"])
             if c["sim"]["horizon_kind"] == "int":
                 c["sim"]["T"] = float(max(1, int(np.ceil(c["sim"]["T"]))))
